@@ -22,6 +22,27 @@ fn fnv_hash<T: ?Sized + Hash>(t: &T) -> u64 {
 	t.hash(&mut h);
 	h.finish()
 }
+/// A hasher that is sensitive to HOW the bytes are fed (one `write` of n bytes differs from n
+/// one-byte writes), like word-at-a-time hashers (FxHasher, ahash). `k1 == k2 => hash(k1) ==
+/// hash(k2)` and the Borrow contract must hold for every Hasher, so this is a legitimate probe.
+pub struct Chunky(pub u64);
+impl Hasher for Chunky {
+	fn finish(&self) -> u64 {
+		self.0
+	}
+	fn write(&mut self, bytes: &[u8]) {
+		self.0 = (self.0 ^ (bytes.len() as u64).wrapping_add(0x9E37_79B9_7F4A_7C15)).wrapping_mul(0x100000001b3);
+		for b in bytes {
+			self.0 ^= *b as u64;
+			self.0 = self.0.wrapping_mul(0x100000001b3);
+		}
+	}
+}
+fn chunky_hash<T: ?Sized + Hash>(t: &T) -> u64 {
+	let mut h = Chunky(0xcbf29ce484222325);
+	t.hash(&mut h);
+	h.finish()
+}
 fn default_hash<T: ?Sized + Hash>(t: &T) -> u64 {
 	let mut h = std::collections::hash_map::DefaultHasher::new();
 	t.hash(&mut h);
@@ -115,6 +136,8 @@ pub struct PairObs {
 	pub hash_b: u64,
 	pub dhash_a: u64,
 	pub dhash_b: u64,
+	pub chash_a: u64,
+	pub chash_b: u64,
 }
 
 fn new_as<'a, T: ?Sized>(f: impl FnOnce() -> Option<&'a T>) -> &'a T {
@@ -138,6 +161,8 @@ pub fn c07_pair_obs(kind: Kind, a: &[u8], b: &[u8]) -> Guard<PairObs> {
 						hash_b: fnv_hash(y),
 						dhash_a: default_hash(x),
 						dhash_b: default_hash(y),
+						chash_a: chunky_hash(x),
+						chash_b: chunky_hash(y),
 					}
 				}};
 			}
@@ -162,6 +187,8 @@ pub fn c07_pair_obs(kind: Kind, a: &[u8], b: &[u8]) -> Guard<PairObs> {
 				hash_b: fnv_hash(y),
 				dhash_a: default_hash(x),
 				dhash_b: default_hash(y),
+				chash_a: chunky_hash(x),
+				chash_b: chunky_hash(y),
 			}
 		})
 	})
@@ -183,6 +210,8 @@ pub fn c07_pair_obs_owned(kind: Kind, a: &[u8], b: &[u8]) -> Option<Guard<PairOb
 					hash_b: fnv_hash(&y),
 					dhash_a: default_hash(&x),
 					dhash_b: default_hash(&y),
+					chash_a: chunky_hash(&x),
+					chash_b: chunky_hash(&y),
 				}
 			}))
 		}};
@@ -313,7 +342,7 @@ pub fn c08_pair(kind: Kind, a: &[u8], b: &[u8], out: &mut Vec<Violation>) -> u64
 			return 1;
 		}
 	};
-	if ab.eq && (ab.hash_a != ab.hash_b || ab.dhash_a != ab.dhash_b) {
+	if ab.eq && (ab.hash_a != ab.hash_b || ab.dhash_a != ab.dhash_b || ab.chash_a != ab.chash_b) {
 		out.push(mk("consistency", "eq-but-hash-differs").obs(format!("a == b, hashes {:x} / {:x}", ab.hash_a, ab.hash_b)).exp("equal values hash identically"));
 	}
 	if (ab.cmp == Ordering::Equal) != ab.eq {
@@ -379,6 +408,12 @@ pub fn c08_views(t: &[u8], out: &mut Vec<Violation>) -> u64 {
 		for (name, hv) in [("Ri", fnv_hash(ri)), ("RiBuf->Ri", fnv_hash(owned_as_ri)), ("Ri->RiRef", fnv_hash(as_ref)), ("RiBuf->RiRef", fnv_hash(owned_as_ref))] {
 			if hv != h {
 				probs.push((format!("hash:{name}"), format!("hash(RiBuf) {h:x} != hash({name}) {hv:x}")));
+			}
+		}
+		let hc = chunky_hash(&owned);
+		for (name, hv) in [("Ri", chunky_hash(ri)), ("RiBuf->Ri", chunky_hash(owned_as_ri)), ("Ri->RiRef", chunky_hash(as_ref)), ("RiBuf->RiRef", chunky_hash(owned_as_ref))] {
+			if hv != hc {
+				probs.push((format!("chunk-sensitive-hash:{name}"), format!("hash(RiBuf) {hc:x} != hash({name}) {hv:x}")));
 			}
 		}
 		let mut hs: HashSet<RiBuf> = HashSet::new();
